@@ -16,6 +16,7 @@
                                      bounds (theta-R-Z only: <<theta bounds, r bounds>>, hundredths of rad / cm; cell <<i, j>> =
                                      <<theta interval, r interval>>)]
      doc.core    name of the grid of the core system
+     doc.nuc     nuclide flags: names flagged {burn: false, xs: true}; <<>> = section not written (armi's defaults)
    `fam` names the family of documents explored (it fixes the base document and which edits are enabled), `act` is the
    last edit.  Every reachable state is one document; the actions are EDITS of the text, one per kind of choice the
    quantifier lists ("component shape/material/dimension/link choices, block and assembly layouts, material
@@ -93,7 +94,10 @@ DimsOfShape == [Circle |-> {"od", "id", "mult"}, Hexagon |-> {"op", "ip", "mult"
                 RadialSegment |-> {"inner_radius", "outer_radius", "inner_theta", "outer_theta", "height", "mult"}]
 Comp(name, shape, mat, ti, th, dims) == [name |-> name, shape |-> shape, mat |-> mat, ti |-> ti, th |-> th,
                                          iso |-> "", lat |-> <<>>, dims |-> dims]
-Solid(mat) == mat \notin {"Sodium", "Void", "Air"}
+\* Component._checkNegativeArea: a negative COLD area is an error for every material except Void ("negative component area is
+\* allowed for Void materials (such as gaps) which may be placed between components that will overlap during thermal
+\* expansion"): a fluid bond squeezed between two overlapping solids is refused, a Void gap in the same place is not.
+Solid(mat) == mat # "Void"
 
 CompIdx(B, cn) == {k \in 1..Len(B.comps) : B.comps[k].name = cn}
 HasComp(B, cn) == CompIdx(B, cn) # {}
@@ -212,7 +216,7 @@ MultConflict(d) == \E b \in BlocksUsed(d) : LET B == d.blocks[b] IN \E c \in 1..
         v == B.comps[c].dims["mult"]
     IN "mult" \in DOMAIN B.comps[c].dims /\ n > 0 /\ (v.k = "link" \/ (v.k = "num" /\ v.v # 1 /\ v.v # n))
 \* keys a material accepts as modifications (signature of <Material>.applyInputParams; data of the materials library)
-ModKeys(mat) == IF mat = "UZr" THEN {"U235_wt_frac", "ZR_wt_frac"} ELSE {}
+ModKeys(mat) == IF mat = "UZr" THEN {"U235_wt_frac", "ZR_wt_frac"} ELSE IF mat = "UraniumOxide" THEN {"U235_wt_frac"} ELSE {}
 \* a non-blank entry must be accepted by the named component's material, or (whole block) by some component of the block
 InvalidModification(d) == \E k \in 1..Len(d.asms) : LET a == d.asms[k] IN
     \E m \in 1..Len(a.mods) : \E j \in 1..Len(a.blocks) :
@@ -232,6 +236,10 @@ Verdict(d) ==
     ELSE IF ~MeshOK(d) THEN "NonUniformMesh"
     ELSE IF OutsideDomain(d) THEN "OutsideDomain"
     ELSE "ok"
+\* a fluid ring whose inside is larger than the OUTSIDE of the component its od is linked to (a slug bigger than its cladding)
+Fluid(mat) == mat \in {"Sodium", "Air"}
+BeyondClad(B, c) == /\ Fluid(c.mat) /\ c.shape = "Circle" /\ c.dims["od"].k = "link"
+                    /\ Res(B, c.name, "id") > Res(B, c.dims["od"].c, "od")
 \* which inconsistency, more precisely (names the violation in reports; first applicable)
 Why(d) ==
     LET v == Verdict(d) IN
@@ -251,7 +259,10 @@ Why(d) ==
          ELSE "core-specifier")
     ELSE IF v = "Overlap" THEN
         (IF \E b \in BlocksUsed(d) : \E c \in 1..Len(d.blocks[b].comps) : Solid(d.blocks[b].comps[c].mat) /\ NegativeArea(d.blocks[b], d.blocks[b].comps[c])
-         THEN "negative-area" ELSE "exceeds-block")
+         THEN (IF \A b \in BlocksUsed(d) : \A c \in 1..Len(d.blocks[b].comps) :
+                     (Solid(d.blocks[b].comps[c].mat) /\ NegativeArea(d.blocks[b], d.blocks[b].comps[c])) => BeyondClad(d.blocks[b], d.blocks[b].comps[c])
+               THEN "negative-fluid-beyond-clad" ELSE "negative-area")
+         ELSE "exceeds-block")
     ELSE ""
 \* documents about which the specification says nothing (kept out of the explored set by the state constraint)
 Modelled(d) ==
@@ -264,23 +275,37 @@ Modelled(d) ==
 
 (* ============================================ expected reactor ============================================ *)
 \* composition of the component built from design c in the block at axial index k of assembly design a
+\* mass fractions given by an override; a listed zero is a nuclide that is absent.  With both uranium isotopes listed the
+\* enrichment m235 / (m235 + m238) follows.
+VecOf(I, n) == LET js == {j \in 1..Len(I.vec) : I.vec[j][1] = n} IN IF js = {} THEN <<0, 1>> ELSE I.vec[CHOOSE j \in js : TRUE][2]
+IsoMF(I) ==
+    LET u == RAdd(VecOf(I, "U235"), VecOf(I, "U238")) IN
+    (IF RIsZero(u) THEN [x \in {} |-> 0] ELSE [enr |-> RDiv(VecOf(I, "U235"), u)]) @@ [mf |-> [j \in 1..Len(I.vec) |-> I.vec[j]]]
+NoClaim == [none |-> TRUE]
 ExpComposition(d, a, k, c) ==
-    IF c.iso # "" THEN
-        LET I == IsoNamed(d, c.iso) IN
+    LET e == ModVal(a, k, c.name, "U235_wt_frac")
+        z == ModVal(a, k, c.name, "ZR_wt_frac")
+        I == IsoNamed(d, c.iso)
+    IN
+    IF c.mat = "UraniumOxide" THEN
+        \* UraniumOxide.applyInputParams -> Material.adjustMassEnrichment -> adjustMassFrac("U235", e): the requested weight
+        \* fraction of U235 WITHIN the uranium, the remainder to the balance isotope(s) -- also when the override lists the
+        \* balance isotope at zero; the modification is applied after the override and has the final word
+        IF e # <<>> THEN [enr |-> e] ELSE IF c.iso # "" THEN IsoMF(I) ELSE NoClaim
+    ELSE IF c.mat = "UZr" THEN
+        \* UZr.applyInputParams (called when any modification reaches the component) sets ZR, U235, U238 from the two
+        \* fractions (defaults when one is missing: no claim); other entries of an override stay, so zr is claimed without one only
+        IF e # <<>> \/ z # <<>> THEN
+            (IF e # <<>> THEN [enr |-> e] ELSE NoClaim) @@ (IF z # <<>> /\ c.iso = "" THEN [zr |-> z] ELSE NoClaim)
+        ELSE IF c.iso # "" THEN IsoMF(I) ELSE NoClaim
+    ELSE IF c.iso # "" THEN
         IF I.fmt = "nd" THEN [nd |-> [j \in 1..Len(I.vec) |-> I.vec[j]]]
         ELSE IF I.fmt = "mf" /\ c.mat = "Custom"
              THEN [md |-> [j \in 1..Len(I.vec) |-> <<I.vec[j][1], RMul(I.dens, I.vec[j][2])>>]]
         ELSE IF I.fmt = "nf" /\ c.mat = "Custom" THEN [nf |-> [j \in 1..Len(I.vec) |-> I.vec[j]], rho |-> I.dens]
-        ELSE IF I.fmt = "mf" THEN [mf |-> [j \in 1..Len(I.vec) |-> I.vec[j]]]
-        ELSE [none |-> TRUE]
-    ELSE IF c.mat = "UZr" THEN
-        LET e == ModVal(a, k, c.name, "U235_wt_frac")
-            z == ModVal(a, k, c.name, "ZR_wt_frac")
-        IN IF e # <<>> /\ z # <<>> THEN [enr |-> e, zr |-> z]
-           ELSE IF e # <<>> THEN [enr |-> e]
-           ELSE IF z # <<>> THEN [zr |-> z]
-           ELSE [none |-> TRUE]
-    ELSE [none |-> TRUE]
+        ELSE IF I.fmt = "mf" THEN IsoMF(I)
+        ELSE NoClaim
+    ELSE NoClaim
 
 ExpComp(d, a, k, B, c) ==
     LET geo == DOMAIN c.dims \ {"mult"}
@@ -327,18 +352,22 @@ OneCell == CellsGrid("core", "hex", "full", << <<0, 0, "A">> >>)
 MixMF == [name |-> "mix", fmt |-> "mf", dens |-> <<10, 1>>, vec |-> << <<"U235", <<1, 4>> >>, <<"U238", <<3, 4>> >> >>]
 MixND == [name |-> "dens", fmt |-> "nd", dens |-> NoRat, vec |-> << <<"U235", <<1, 100>> >>, <<"U238", <<3, 100>> >>, <<"B10", <<2, 25>> >> >>]
 MixNF == [name |-> "atoms", fmt |-> "nf", dens |-> <<8, 1>>, vec |-> << <<"U235", <<1, 5>> >>, <<"PU239", <<3, 10>> >>, <<"U238", <<1, 2>> >> >>]
+\* oxide vectors for a library fuel material; "hot" lists the balance isotope at exactly zero
+Hot   == [name |-> "hot", fmt |-> "mf", dens |-> NoRat, vec |-> << <<"U235", <<22, 25>> >>, <<"U238", <<0, 1>> >>, <<"O16", <<3, 25>> >> >>]
+Mixed == [name |-> "mixed", fmt |-> "mf", dens |-> NoRat, vec |-> << <<"U235", <<11, 25>> >>, <<"U238", <<11, 25>> >>, <<"O16", <<3, 25>> >> >>]
 Steel == [name |-> "steel", fmt |-> "mf", dens |-> NoRat, vec |-> << <<"FE56", <<9, 10>> >>, <<"CR52", <<1, 10>> >> >>]
 
 \* "links": one block fuel/clad/liner/coolant/duct, every dimension numeric; edits make links, change numbers, reorder, drop
-BaseLinks == [iso |-> <<>>, blocks |-> << Blk(<<"fuel">>, <<Fuel, Clad, Liner, Cool, Duct>>) >>,
+BaseLinks == [nuc |-> <<>>, iso |-> <<>>, blocks |-> << Blk(<<"fuel">>, <<Fuel, Clad, Liner, Cool, Duct>>) >>,
               asms |-> << Asm(<<"fuel", "a">>, "A", <<1>>, <<10>>, <<1>>, <<"A">>) >>,
               grids |-> <<OneCell>>, core |-> "core"]
 \* "comp": compositions -- custom isotopics in the three input formats, isotopics on a library material, UZr modifications
-BaseComp == [iso |-> <<MixMF, MixND, MixNF, Steel>>, blocks |-> << Blk(<<"fuel">>, <<Fuel, Clad, Cool, Duct>>), Blk(<<"inner", "fuel">>, <<Fuel, Cool, Duct>>) >>,
+NucFlags == <<"U235", "U238", "PU239", "B10", "O", "ZR", "NA", "FE", "CR", "NI", "MO", "MN", "W", "V", "C", "SI">>
+BaseComp == [nuc |-> NucFlags, iso |-> <<MixMF, MixND, MixNF, Steel, Hot, Mixed>>, blocks |-> << Blk(<<"fuel">>, <<Fuel, Clad, Cool, Duct>>), Blk(<<"inner", "fuel">>, <<Fuel, Cool, Duct>>) >>,
              asms |-> << Asm(<<"fuel", "a">>, "A", <<1, 2, 1>>, <<10, 20, 30>>, <<1, 2, 3>>, <<"A", "B", "C">>) >>,
              grids |-> <<OneCell>>, core |-> "core"]
 \* "stack": assembly layouts -- three block designs, an assembly design of three blocks and one of two
-BaseStack == [iso |-> <<>>,
+BaseStack == [nuc |-> <<>>, iso |-> <<>>,
               blocks |-> << Blk(<<"fuel">>, <<Fuel, Clad, Cool, Duct>>), Blk(<<"shield">>, <<Slug, Cool, Duct>>), Blk(<<"plenum">>, <<Clad, Cool, Duct>>) >>,
               asms |-> << Asm(<<"fuel", "a">>, "A", <<2, 1, 3>>, <<10, 20, 30>>, <<1, 2, 3>>, <<"A", "B", "C">>),
                           Asm(<<"shield", "b">>, "B", <<2, 3>>, <<30, 30>>, <<3, 1>>, <<"D", "E">>) >>,
@@ -348,7 +377,7 @@ PFuel  == [Fuel EXCEPT !.lat = <<"1">>, !.dims["mult"] = NoDim]
 PClad  == [Clad EXCEPT !.lat = <<"1">>, !.dims["mult"] = NoDim, !.dims["id"] = Lnk("fuel", "od")]
 PGuide == [Comp("guide", "Circle", "HT9", 25, 450, [od |-> Num(70), id |-> Num(50), mult |-> NoDim]) EXCEPT !.lat = <<"2">>]
 PinGrid(geom) == CellsGrid("pins", geom, "full", << <<0, 0, "1">> >>)
-BasePins == [iso |-> <<>>, blocks |-> << [Blk(<<"fuel">>, <<PFuel, PClad, PGuide, Cool, Duct>>) EXCEPT !.grid = "pins"] >>,
+BasePins == [nuc |-> <<>>, iso |-> <<>>, blocks |-> << [Blk(<<"fuel">>, <<PFuel, PClad, PGuide, Cool, Duct>>) EXCEPT !.grid = "pins"] >>,
              asms |-> << Asm(<<"fuel", "a">>, "A", <<1>>, <<10>>, <<1>>, <<"A">>) >>,
              grids |-> <<OneCell, PinGrid("hex_corners_up")>>, core |-> "core"]
 \* "core": placement of two assembly designs on core grids of every geometry
@@ -366,7 +395,7 @@ CoreStart(geom, dom) ==
     ELSE << <<0, 0, "A">>, <<1, 0, "B">>, <<0, -1, "A">> >>
 BaseCore(geom, dom) ==
     LET outer == IF geom = "cartesian" THEN Can ELSE Duct IN
-    [iso |-> <<>>, blocks |-> IF geom = "thetarz" THEN << Blk(<<"fuel">>, <<Wedge("fuel", "UZr", 0, 500)>>), Blk(<<"shield">>, <<Wedge("slug", "HT9", 500, 1000)>>) >>
+    [nuc |-> <<>>, iso |-> <<>>, blocks |-> IF geom = "thetarz" THEN << Blk(<<"fuel">>, <<Wedge("fuel", "UZr", 0, 500)>>), Blk(<<"shield">>, <<Wedge("slug", "HT9", 500, 1000)>>) >>
                               ELSE << Blk(<<"fuel">>, <<Fuel, Cool, outer>>), Blk(<<"shield">>, <<Slug, Cool, outer>>) >>,
      asms |-> CoreAsms(outer),
      grids |-> << CellsGrid("core", geom, dom, CoreStart(geom, dom)) >>, core |-> "core"]
@@ -386,23 +415,32 @@ SetLink(cn, d, tn, td) ==
        /\ doc.blocks[1].comps[k].dims[d] # Lnk(tn, td)
        /\ doc' = [doc EXCEPT !.blocks[1].comps[k].dims[d] = Lnk(tn, td)]
     /\ act' = [n |-> "SetLink", c |-> cn, d |-> d, tc |-> tn, td |-> td]
-AltValue == [fuel |-> [od |-> 50, id |-> 20, mult |-> 19], clad |-> [od |-> 70, id |-> 56, mult |-> 1],
-             liner |-> [od |-> 110, id |-> 120, mult |-> 2000]]
-SetNum(cn, d) ==
+AltValue == [fuel |-> [od |-> {50, 70}, id |-> {20}, mult |-> {19}], clad |-> [od |-> {70}, id |-> {56}, mult |-> {1}],
+             liner |-> [od |-> {110}, id |-> {120}, mult |-> {2000}]]
+SetNum(cn, d, v) ==
     /\ fam = "links" /\ cn \in PinNames /\ d \in {"od", "id", "mult"}
     /\ HasComp(doc.blocks[1], cn)
+    /\ v \in AltValue[cn][d]
     /\ LET k == CHOOSE x \in CompIdx(doc.blocks[1], cn) : TRUE IN
        /\ d \in DOMAIN doc.blocks[1].comps[k].dims
-       /\ doc.blocks[1].comps[k].dims[d] # Num(AltValue[cn][d])
-       /\ doc' = [doc EXCEPT !.blocks[1].comps[k].dims[d] = Num(AltValue[cn][d])]
-    /\ act' = [n |-> "SetNum", c |-> cn, d |-> d]
+       /\ doc.blocks[1].comps[k].dims[d] # Num(v)
+       /\ doc' = [doc EXCEPT !.blocks[1].comps[k].dims[d] = Num(v)]
+    /\ act' = [n |-> "SetNum", c |-> cn, d |-> d, v |-> v]
+\* a bond / gap between fuel and clad, linked to both: negative when the two solids overlap (fuel od 0.70 > clad id 0.64)
+Bond(mat) == Comp("bond", "Circle", mat, 450, 450, [id |-> Lnk("fuel", "od"), od |-> Lnk("clad", "id"), mult |-> Lnk("fuel", "mult")])
+AddBond(mat) ==
+    /\ fam = "links" /\ mat \in {"Sodium", "Void"}
+    /\ ~HasComp(doc.blocks[1], "bond") /\ HasComp(doc.blocks[1], "fuel")
+    /\ LET k == CHOOSE x \in CompIdx(doc.blocks[1], "fuel") : TRUE IN
+       doc' = [doc EXCEPT !.blocks[1].comps = SubSeq(@, 1, k) \o <<Bond(mat)>> \o SubSeq(@, k + 1, Len(@))]
+    /\ act' = [n |-> "AddBond", mat |-> mat]
 DropComp(cn) ==
     /\ fam = "links" /\ cn \in PinNames /\ HasComp(doc.blocks[1], cn)
     /\ LET k == CHOOSE x \in CompIdx(doc.blocks[1], cn) : TRUE IN
        doc' = [doc EXCEPT !.blocks[1].comps = DelAt(@, k)]
     /\ act' = [n |-> "DropComp", c |-> cn]
 SwapComps(k) ==
-    /\ fam = "links" /\ k \in 1..2 /\ Len(doc.blocks[1].comps) = 5
+    /\ fam = "links" /\ k \in 1..2 /\ Len(doc.blocks[1].comps) >= 5
     /\ doc' = [doc EXCEPT !.blocks[1].comps = SwapAt(@, k)]
     /\ act' = [n |-> "SwapComps", k |-> k]
 RenameComp(cn, new) ==                                       \* two components of one name
@@ -427,15 +465,17 @@ SetTemps(cn) ==
     /\ act' = [n |-> "SetTemps", c |-> cn]
 
 \* ---- material, custom isotopics, material modifications ("comp") ----
-IsoNames == {"mix", "dens", "atoms", "steel", "nosuch"}
+IsoNames == {"mix", "dens", "atoms", "steel", "nosuch", "hot", "mixed", ""}
+FuelMats == {"Custom", "UraniumOxide", "UZr"}
 SetIsotopics(b, cn, iso, mat) ==
-    /\ fam = "comp" /\ b \in 1..2 /\ cn \in {"fuel", "clad"} /\ iso \in IsoNames /\ mat \in {"Custom", "HT9"}
+    /\ fam = "comp" /\ b \in 1..2 /\ cn \in {"fuel", "clad"} /\ iso \in IsoNames /\ mat \in FuelMats \cup {"HT9"}
     /\ HasComp(doc.blocks[b], cn)
-    /\ (iso = "steel") = (mat = "HT9")                 \* number / mass densities only on Custom; fractions without density on a library material
-    /\ (cn = "clad") => (iso = "steel")
-    /\ (cn = "fuel") => (iso # "steel")
+    /\ IF cn = "clad" THEN iso = "steel" /\ mat = "HT9"             \* fractions without density on a library material
+       ELSE \/ iso \in {"mix", "dens", "atoms", "nosuch"} /\ mat = "Custom"      \* number / mass densities only on Custom
+            \/ iso \in {"hot", "mixed"} /\ mat \in {"UraniumOxide", "UZr"}     \* an oxide vector on a library fuel
+            \/ iso = "" /\ mat = "UraniumOxide"                              \* the library oxide as it is
     /\ LET k == CHOOSE x \in CompIdx(doc.blocks[b], cn) : TRUE IN
-       /\ doc.blocks[b].comps[k].iso = ""
+       /\ doc.blocks[b].comps[k].iso = "" /\ doc.blocks[b].comps[k].mat \in {"UZr", "HT9"}
        /\ doc' = [doc EXCEPT !.blocks[b].comps[k].iso = iso, !.blocks[b].comps[k].mat = mat]
     /\ act' = [n |-> "SetIsotopics", b |-> b, c |-> cn, iso |-> iso, mat |-> mat]
 ModLists == { << <<1, 5>>, <<>>, <<1, 4>> >>, << <<3, 20>>, <<1, 20>>, <<>> >> }
@@ -605,13 +645,14 @@ ListTwice ==                                                 \* the same cell li
 
 Edit ==
     \/ \E cn \in PinNames, d \in {"od", "id", "mult"}, tn \in PinNames, td \in {"od", "id", "mult"} : SetLink(cn, d, tn, td)
-    \/ \E cn \in PinNames, d \in {"od", "id", "mult"} : SetNum(cn, d)
+    \/ \E cn \in PinNames, d \in {"od", "id", "mult"}, v \in {1, 19, 20, 50, 56, 70, 110, 120, 2000} : SetNum(cn, d, v)
+    \/ \E mat \in {"Sodium", "Void"} : AddBond(mat)
     \/ \E cn \in PinNames : DropComp(cn)
     \/ \E k \in 1..2 : SwapComps(k)
     \/ \E cn \in PinNames, new \in PinNames : RenameComp(cn, new)
     \/ \E cn \in PinNames : SetShape(cn)
     \/ \E cn \in PinNames : SetTemps(cn)
-    \/ \E b \in 1..2, cn \in {"fuel", "clad"}, iso \in IsoNames, mat \in {"Custom", "HT9"} : SetIsotopics(b, cn, iso, mat)
+    \/ \E b \in 1..2, cn \in {"fuel", "clad"}, iso \in IsoNames, mat \in FuelMats \cup {"HT9"} : SetIsotopics(b, cn, iso, mat)
     \/ \E scope \in {"", "fuel"}, key \in {"U235_wt_frac", "ZR_wt_frac"}, vals \in ModLists : SetMod(scope, key, vals)
     \/ ShortMod
     \/ DupIsotopics
